@@ -178,7 +178,8 @@ func (r *Route) TargetConfig(t *Target, addWeight bool) string {
 		s += fmt.Sprintf(" weight %.4f", t.FixedWeight)
 	}
 	if len(t.Tags) > 0 {
-		s += fmt.Sprintf(" tags %q", strings.Join(t.Tags, ","))
+		// the parser reads the tag list verbatim: it must not be escaped
+		s += fmt.Sprintf(" tags \"%s\"", strings.Join(t.Tags, ","))
 	}
 	if len(t.Opts) > 0 {
 		var keys []string
